@@ -22,6 +22,29 @@ pub struct RunCfg {
     pub seed: u64,
     pub is_ref: bool,
     pub build: &'static str,
+    /// how the parser is constructed: 0 Parser::new(LineReader::new(reader)) with the configured chunk size;
+    /// 1 Parser::from_read, 2 Parser::from_buf_reader (BufReader that has already buffered input),
+    /// 3 Parser::from_boxed_dyn_read - the parser's own entry points, default chunk size
+    pub ctor: u8,
+}
+
+/// what a parser is constructed from
+pub enum Input {
+    Reader(DeferredReader<'static>),
+    Src(Source),
+    Buf(BufReader<Source>),
+    Boxed(Box<dyn std::io::Read>),
+}
+
+macro_rules! construct {
+    ($P:ty, $input:expr, $config:expr) => {
+        match $input {
+            Input::Reader(r) => <$P>::new(LineReader::new(r), $config),
+            Input::Src(src) => <$P>::from_read(src, $config),
+            Input::Buf(b) => <$P>::from_buf_reader(b, $config),
+            Input::Boxed(b) => <$P>::from_boxed_dyn_read(b, $config),
+        }
+    };
 }
 
 impl RunCfg {
@@ -39,6 +62,7 @@ impl RunCfg {
             seed: 0,
             is_ref: true,
             build: if cfg!(debug_assertions) { "dev" } else { "release" },
+            ctor: 0,
         }
     }
 }
@@ -143,32 +167,43 @@ fn call(fname: &str, f: impl FnOnce() -> Value) -> bool {
     }
 }
 
-fn make_reader(input: &[u8], cfg: &RunCfg) -> DeferredReader<'static> {
+fn prefilled(mut src: Source, cap: usize) -> BufReader<Source> {
+    // a BufReader that has already buffered (but not consumed) some input
+    src.log = false;
+    let saved = src.intr_pm;
+    src.intr_pm = 0;
+    let mut br = BufReader::with_capacity(cap.max(1), src);
+    let _ = br.fill_buf().map(|b| b.len()).unwrap_or(0);
+    {
+        let inner = br.get_mut();
+        inner.log = true;
+        inner.intr_pm = saved;
+    }
+    br
+}
+
+fn make_input(input: &[u8], cfg: &RunCfg) -> Input {
     let mut src = Source::new(input.to_vec(), cfg.policy.clone(), cfg.seed);
     if let Some(k) = cfg.fault {
         src = src.fail_at(k);
     }
     src.intr_pm = cfg.intr_pm;
-    let mut r = if let Some((cap, _)) = cfg.bufreader {
-        // a BufReader that has already buffered (but not consumed) some input
-        src.log = false;
-        let saved = src.intr_pm;
-        src.intr_pm = 0;
-        let mut br = BufReader::with_capacity(cap.max(1), src);
-        let got = br.fill_buf().map(|b| b.len()).unwrap_or(0);
-        {
-            let inner = br.get_mut();
-            inner.log = true;
-            inner.intr_pm = saved;
+    let inp = match cfg.ctor {
+        1 => Input::Src(src),
+        2 => Input::Buf(prefilled(src, cfg.bufreader.map_or(5, |c| c.0))),
+        3 => Input::Boxed(Box::new(src)),
+        _ => {
+            let mut r = if let Some((cap, _)) = cfg.bufreader {
+                DeferredReader::from_buf_reader(prefilled(src, cap))
+            } else {
+                DeferredReader::from_read(src)
+            };
+            r.set_chunk_size(cfg.chunk);
+            Input::Reader(r)
         }
-        let _ = got;
-        DeferredReader::from_buf_reader(br)
-    } else {
-        DeferredReader::from_read(src)
     };
     trace::sync_source_counter();
-    r.set_chunk_size(cfg.chunk);
-    r
+    inp
 }
 
 macro_rules! dimacs_family {
@@ -178,7 +213,7 @@ macro_rules! dimacs_family {
         let reader = $reader;
         let flag = $cfg.flag;
         let go = call("new", || {
-            match m::Parser::<$L>::new(LineReader::new(reader), m::Config::default().ignore_header(flag)) {
+            match construct!(m::Parser::<$L>, reader, m::Config::default().ignore_header(flag)) {
                 Ok(p) => {
                     let h = p.header();
                     parser_slot = Some(p);
@@ -239,7 +274,7 @@ macro_rules! run_gcnf { ($reader:expr, $cfg:expr, $L:ty) => {
 }; }
 macro_rules! run_log { ($reader:expr, $cfg:expr, $L:ty) => {{
     use flussab_cnf::sat_solver_log as m;
-    let mut lr = LineReader::new($reader);
+    let mut lr = LineReader::new(match $reader { Input::Reader(r) => r, _ => unreachable!("the solver-log parser has no constructors of its own") });
     let flag = $cfg.flag;
     call("parse_log", || match m::parse_log::<$L>(&mut lr, m::Config::default().ignore_unknown_lines(flag)) {
         Ok(l) => json!({"res":"ok","item":["log", match l.satisfiable { Some(true) => "sat", Some(false) => "unsat", None => "unknown" },
@@ -356,10 +391,10 @@ pub fn hdr_json_b(h: &flussab_aiger::binary::Header) -> Value {
            num(h.bad_state_property_count), num(h.invariant_constraint_count), num(h.justice_property_count), num(h.fairness_constraint_count)])
 }
 
-fn run_aag<L: flussab_aiger::Lit + 'static>(reader: DeferredReader<'static>) {
+fn run_aag<L: flussab_aiger::Lit + 'static>(reader: Input) {
     use flussab_aiger::ascii as m;
     let mut slot = None;
-    let go = call("new", || match m::Parser::<L>::new(LineReader::new(reader), m::Config::default()) {
+    let go = call("new", || match construct!(m::Parser::<L>, reader, m::Config::default()) {
         Ok(p) => {
             let h = hdr_json_a(p.header());
             slot = Some(p);
@@ -413,10 +448,10 @@ fn run_aag<L: flussab_aiger::Lit + 'static>(reader: DeferredReader<'static>) {
         |g: flussab_aiger::aig::AndGate<L>| json!(["and", num(g.output.code()), num(g.inputs[0].code()), num(g.inputs[1].code())]));
 }
 
-fn run_aig<L: flussab_aiger::Lit + 'static>(reader: DeferredReader<'static>) {
+fn run_aig<L: flussab_aiger::Lit + 'static>(reader: Input) {
     use flussab_aiger::binary as m;
     let mut slot = None;
-    let go = call("new", || match m::Parser::<L>::new(LineReader::new(reader), m::Config::default()) {
+    let go = call("new", || match construct!(m::Parser::<L>, reader, m::Config::default()) {
         Ok(p) => {
             let h = hdr_json_b(p.header());
             slot = Some(p);
@@ -467,16 +502,16 @@ fn oaig_json<L: flussab_aiger::Lit>(a: &flussab_aiger::aig::OrderedAig<L>) -> Va
         match &a.comment { Some(c) => json!(["comment", bytes_json(c.as_bytes())]), None => json!(["nocomment"]) }])
 }
 
-fn run_aag_parse<L: flussab_aiger::Lit + 'static>(reader: DeferredReader<'static>) {
+fn run_aag_parse<L: flussab_aiger::Lit + 'static>(reader: Input) {
     use flussab_aiger::ascii as m;
-    call("parse", || match m::Parser::<L>::new(LineReader::new(reader), m::Config::default()).and_then(|p| p.parse()) {
+    call("parse", || match construct!(m::Parser::<L>, reader, m::Config::default()).and_then(|p| p.parse()) {
         Ok(a) => json!({"res":"ok","item":aig_json(&a)}),
         Err(e) => aig_err(&e),
     });
 }
-fn run_aig_parse<L: flussab_aiger::Lit + 'static>(reader: DeferredReader<'static>) {
+fn run_aig_parse<L: flussab_aiger::Lit + 'static>(reader: Input) {
     use flussab_aiger::binary as m;
-    call("parse", || match m::Parser::<L>::new(LineReader::new(reader), m::Config::default()).and_then(|p| p.parse()) {
+    call("parse", || match construct!(m::Parser::<L>, reader, m::Config::default()).and_then(|p| p.parse()) {
         Ok(a) => json!({"res":"ok","item":oaig_json(&a)}),
         Err(e) => aig_err(&e),
     });
@@ -531,10 +566,10 @@ pub fn btor_line_json(l: &flussab_btor2::btor2::Line) -> serde_json::Value {
     }
 }
 
-fn run_btor2(reader: DeferredReader<'static>) {
+fn run_btor2(reader: Input) {
     use flussab_btor2 as m;
     let mut slot = None;
-    let go = call("new", || match m::Parser::new(LineReader::new(reader), m::Config::default()) {
+    let go = call("new", || match construct!(m::Parser, reader, m::Config::default()) {
         Ok(p) => {
             slot = Some(p);
             json!({"res":"ok","item":["nohdr"]})
@@ -635,13 +670,13 @@ pub fn run_traced(id: u64, input: &[u8], cfg: &RunCfg) {
         "expect":expect.unwrap_or(json!([])),"parser":cfg.parser,"lit":cfg.lit,"flag":cfg.flag,
         "input":bytes_json(input),"limit":limit,"faulty":cfg.fault.is_some(),"chunk":cfg.chunk,
         "policy":policy_json(&cfg.policy),"lines": matches!(cfg.policy, Policy::Lines), "intr":cfg.intr_pm > 0,
-        "ref":cfg.is_ref,"build":cfg.build,"bufreader":cfg.bufreader.is_some()}));
-    let reader = make_reader(input, cfg);
+        "ref":cfg.is_ref,"build":cfg.build,"bufreader":cfg.bufreader.is_some() || cfg.ctor == 2,"ctor":cfg.ctor}));
+    let reader = make_input(input, cfg);
     dispatch(reader, cfg);
     trace::rec(json!({"ev":"pend"}));
 }
 
-fn dispatch(reader: DeferredReader<'static>, cfg: &RunCfg) {
+fn dispatch(reader: Input, cfg: &RunCfg) {
     let lit = cfg.lit.as_str();
     match cfg.parser.as_str() {
         "cnf" => with_dimacs_lit!(lit, run_cnf, reader, cfg),
@@ -680,7 +715,7 @@ pub fn run_measured(input: &[u8], cfg: &RunCfg, limit_bytes: usize) {
     let base = alloc::live();
     alloc::rebase_peak();
     PANICS.with(|c| c.set(0));
-    let r = catch(|| dispatch(reader, &c));
+    let r = catch(|| dispatch(Input::Reader(reader), &c));
     let panicked = r.is_err() || PANICS.with(|c| c.get()) > 0;
     let peak = alloc::peak().saturating_sub(base);
     let maxreq = alloc::maxreq();
